@@ -357,9 +357,9 @@ Proof.
     { destruct (ch =? c_nl).
       - unfold buf_set. destruct (BUFSIZ <=? cp - 1) eqn:EB; [apply N.leb_le in EB; lia|].
         assert (Hk : N.to_nat (cp - 1) = S (N.to_nat (cp - 2))) by lia. rewrite Hk.
-        cbn [length firstn skipn app].
-        destruct (Nat.ltb_spec (S (N.to_nat (cp - 2))) (S (length rest1))); [|cbn [length] in Hl1; lia].
-        eexists; split; [reflexivity|]. intros _. apply in_or_app; right; left; reflexivity.
+        cbn [list_set].
+        destruct (list_set_ok rest1 (N.to_nat (cp - 2)) 0) as (r2 & E2 & _ & _ & Hin2 & _); [cbn [length] in Hl1; lia|].
+        rewrite E2. cbn [option_map]. eexists; split; [reflexivity|]. intros _. exact Hin2.
       - eexists; split; [reflexivity|]. intros Hb0. cbn [In] in Hin1. destruct Hin1; congruence. }
     destruct Hb2 as (rest2 & -> & Hin2).
     set (l := line_of (b0 :: rest2)).
